@@ -14,7 +14,7 @@ BF == FeeInfo("bidfee1", Dec(250000, "plain"))
 Cfgs == IF Tier = "quick"
         THEN {InstMsg("ats", "base", <<"cv1", "base">>, <<"q1", "q2">>, <<"appr1">>, <<"exec1">>, NoFeeInfo, BF, <<>>, <<>>, 0, 1)}
         ELSE {InstMsg("ats", "base", <<"cv1", "base">>, <<"q1", "q2">>, <<"appr1">>, <<"exec1">>, a, b, <<>>, <<>>, 0, 1)
-                : a \in {NoFeeInfo, FeeInfo("askfee1", Dec(500000, "plain"))}, b \in {NoFeeInfo, BF}}
+                : a \in {NoFeeInfo, FeeInfo("askfee1", Dec(500000, "plain"))}, b \in {BF}}
 
 Envs == {[marker |-> [d \in {"base", "cv1", "q1", "q2"} |-> "coin"], attrs |-> <<>>]}
 
